@@ -3,11 +3,11 @@ from ural.has_special_host import is_special_host
 
 
 class SuffixTrieNode(object):
-    __slots__ = ("children", "exception", "leaf", "private")
+    __slots__ = ("children", "exceptions", "leaf", "private")
 
     def __init__(self):
         self.children = None
-        self.exception = None
+        self.exceptions = None
         self.leaf = False
         self.private = False
 
@@ -23,7 +23,9 @@ class SuffixTrie(object):
         for part in reversed(suffix.split(".")):
 
             if part.startswith("!"):
-                node.exception = part[1:]
+                if node.exceptions is None:
+                    node.exceptions = set()
+                node.exceptions.add(part[1:])
                 break
 
             # To save up some RAM, we initialize the children dict only
@@ -72,7 +74,7 @@ class SuffixTrie(object):
                 break
 
             # Exception
-            if part == node.exception:
+            if node.exceptions is not None and part in node.exceptions:
                 break
 
             child = node.children.get(part)
